@@ -54,7 +54,7 @@ func fifoShape(c *Ctx, rule string) {
 	la := computeLocksets(p)
 	// push: the only store to chunks is append(load chunks, param)
 	nSt := 0
-	instrsOf(push, func(in ssa.Instruction) {
+	instrsOfU(push, func(in ssa.Instruction) {
 		st, ok := in.(*ssa.Store)
 		if !ok || !isFieldStore(st, "vnet.chunkQueue", "chunks") {
 			return
@@ -65,7 +65,7 @@ func fifoShape(c *Ctx, rule string) {
 		okApp := ok && isCall(call, "builtin.append") && isFieldLoad(call.Call.Args[0], "vnet.chunkQueue", "chunks")
 		if okApp {
 			// appended element is the parameter
-			okApp = derivesFrom(call.Call.Args[1], func(v ssa.Value) bool { return v == ssa.Value(push.Params[1]) }, false) ||
+			okApp = derivesFrom(call.Call.Args[1], func(v ssa.Value) bool { return sameOrigin(v, ssa.Value(push.Params[1])) }, false) ||
 				sliceOfParam(call.Call.Args[1], push.Params[1])
 		}
 		if !okApp {
@@ -114,7 +114,7 @@ func fifoShape(c *Ctx, rule string) {
 		}
 	}
 	nSt = 0
-	instrsOf(pop, func(in ssa.Instruction) {
+	instrsOfU(pop, func(in ssa.Instruction) {
 		st, ok := in.(*ssa.Store)
 		if !ok || !isFieldStore(st, "vnet.chunkQueue", "chunks") {
 			return
@@ -134,7 +134,7 @@ func fifoShape(c *Ctx, rule string) {
 	if nSt != 1 {
 		o.Fail(pop.Pos(), "expected one store to the queue slice in pop, found %d", nSt)
 	}
-	instrsOf(peek, func(in ssa.Instruction) {
+	instrsOfU(peek, func(in ssa.Instruction) {
 		if st, ok := in.(*ssa.Store); ok {
 			if _, isF := asFieldAddr(st.Addr); isF {
 				o.Fail(in.Pos(), "peek modifies the queue")
@@ -157,7 +157,7 @@ func sliceOfParam(v ssa.Value, prm *ssa.Parameter) bool {
 	for _, r := range *al.Referrers() {
 		if ia, ok := r.(*ssa.IndexAddr); ok {
 			for _, rr := range *ia.Referrers() {
-				if st, ok := rr.(*ssa.Store); ok && st.Val == ssa.Value(prm) {
+				if st, ok := rr.(*ssa.Store); ok && sameOrigin(st.Val, ssa.Value(prm)) {
 					found = true
 				}
 			}
@@ -179,7 +179,7 @@ func peekBelief(c *Ctx, rule string, floor int) {
 			pk := in.(*ssa.Call)
 			o.Site(in.Pos(), "peek() in %s", fname(f))
 			nonNil := func(at ssa.Instruction) bool {
-				return hasFact(at, func(ft fact) bool { return nilFact(ft, func(v ssa.Value) bool { return v == ssa.Value(pk) }, false) })
+				return hasFact(at, func(ft fact) bool { return nilFact(ft, func(v ssa.Value) bool { return sameOrigin(v, ssa.Value(pk)) }, false) })
 			}
 			for _, rf := range *pk.Referrers() {
 				switch x := rf.(type) {
@@ -204,7 +204,7 @@ func peekBelief(c *Ctx, rule string, floor int) {
 						}
 					}
 				case *ssa.Call:
-					if x.Call.IsInvoke() && x.Call.Value == ssa.Value(pk) && !nonNil(x) {
+					if x.Call.IsInvoke() && sameOrigin(x.Call.Value, ssa.Value(pk)) && !nonNil(x) {
 						o.Fail(x.Pos(), "%s calls a method on peek()'s result without a nil test", fname(f))
 					}
 				}
@@ -260,7 +260,7 @@ func runC16(c *Ctx) {
 	st := named.Underlying().(*types.Struct)
 	chanceField := ""
 	// the chance is the integer field the constructor fills from its integer parameter
-	instrsOf(nw, func(in ssa.Instruction) {
+	instrsOfU(nw, func(in ssa.Instruction) {
 		if s, ok := in.(*ssa.Store); ok {
 			if fr, ok := asFieldAddr(s.Addr); ok && fr.SName == "vnet.LossFilter" {
 				v := s.Val
@@ -313,7 +313,7 @@ func runC16(c *Ctx) {
 	}
 	recv := f.Params[0].Name()
 	sym := func(v ssa.Value) (string, bool) {
-		if v == ssa.Value(d) {
+		if sameOrigin(v, ssa.Value(d)) {
 			return "draw", true
 		}
 		return defaultSym(v)
@@ -345,7 +345,7 @@ func runC16(c *Ctx) {
 	}
 	// constructor stores its int parameter unchanged
 	okStore := false
-	instrsOf(nw, func(in ssa.Instruction) {
+	instrsOfU(nw, func(in ssa.Instruction) {
 		if s, ok := in.(*ssa.Store); ok && isFieldStore(s, "vnet.LossFilter", chanceField) {
 			o.Site(in.Pos(), "constructor stores %s", s.Val.Name())
 			if _, isP := s.Val.(*ssa.Parameter); isP {
@@ -367,7 +367,7 @@ func runC16(c *Ctx) {
 			if isNICForward(in, "vnet.LossFilter") {
 				nF++
 				o.Site(in.Pos(), "forward")
-				if x.Call.Args[0] != ssa.Value(f.Params[1]) {
+				if !sameOrigin(x.Call.Args[0], ssa.Value(f.Params[1])) {
 					o.Fail(in.Pos(), "the forwarded chunk is not the received one (a copy made by Clone drops fields of TCP chunks)")
 				}
 			} else if x != d {
@@ -518,7 +518,7 @@ func runC15(c *Ctx) {
 					return true
 				}
 				for _, pkc := range pks {
-					if v == ssa.Value(pkc) {
+					if sameOrigin(v, ssa.Value(pkc)) {
 						return true
 					}
 				}
@@ -748,7 +748,7 @@ func runC14(c *Ctx) {
 	// R3 due time computed at arrival from time.Now() + configured delay
 	o = c.Obl("R3", fname(arr), "the due time is computed when the chunk arrives as time.Now().Add(configured delay); the arrival is queued before the loop is notified", 1)
 	okDue := false
-	instrsOf(arr, func(in ssa.Instruction) {
+	instrsOfU(arr, func(in ssa.Instruction) {
 		s, ok := in.(*ssa.Store)
 		if !ok || !isFieldStore(s, "vnet.timedChunk", "deadline") {
 			return
@@ -770,7 +770,7 @@ func runC14(c *Ctx) {
 	}
 	// constructor stores delay param
 	if nw := p.Func("vnet", "", "NewDelayFilter"); nw != nil {
-		instrsOf(nw, func(in ssa.Instruction) {
+		instrsOfU(nw, func(in ssa.Instruction) {
 			if s, ok := in.(*ssa.Store); ok && isFieldStore(s, T, "delay") {
 				if _, isP := s.Val.(*ssa.Parameter); !isP {
 					o.Fail(in.Pos(), "the constructor does not store the configured delay unchanged")
@@ -868,7 +868,7 @@ func runC14(c *Ctx) {
 		for _, cm := range commsOfU(run) {
 			if cm.Sel == nil && cm.Dir == types.RecvOnly && strings.HasPrefix(chanRole(cm.Chan), "timer.C") {
 				if !hasFact(cm.Instr, func(ft fact) bool {
-					return boolFact(ft, func(v ssa.Value) bool { return v == ssa.Value(stp.(*ssa.Call)) }, false)
+					return boolFact(ft, func(v ssa.Value) bool { return sameOrigin(v, ssa.Value(stp.(*ssa.Call))) }, false)
 				}) {
 					o.Fail(cm.Instr.Pos(), "the timer channel is drained although Stop() may have succeeded (blocks forever)")
 				}
@@ -879,7 +879,7 @@ func runC14(c *Ctx) {
 	// R8 router minimum delay
 	o = c.Obl("R8", fname(pc), "router: a chunk is popped only on the edge where its timestamp is not after cutOff = now - minDelay; the timestamp is taken when the router enqueues the chunk", 3)
 	var cut *ssa.Call
-	instrsOf(pc, func(in ssa.Instruction) {
+	instrsOfU(pc, func(in ssa.Instruction) {
 		call, ok := in.(*ssa.Call)
 		if !ok || callName(call) != "(time.Time).Add" {
 			return
@@ -909,7 +909,7 @@ func runC14(c *Ctx) {
 			ts, ok := v.(*ssa.Call)
 			return ok && ts.Call.IsInvoke() && ts.Call.Method.Name() == "getTimestamp"
 		}
-		return timeOrderFact(ft, isTS, func(v ssa.Value) bool { return v == ssa.Value(cut) }) == -1
+		return timeOrderFact(ft, isTS, func(v ssa.Value) bool { return sameOrigin(v, ssa.Value(cut)) }) == -1
 	}
 	for _, in := range findU(pc, func(in ssa.Instruction) bool { return isQueueCall(in, "pop") }) {
 		o.Site(in.Pos(), "pop")
@@ -919,7 +919,7 @@ func runC14(c *Ctx) {
 	}
 	// timestamp at enqueue
 	var stamp, qpush ssa.Instruction
-	instrsOf(rpush, func(in ssa.Instruction) {
+	instrsOfU(rpush, func(in ssa.Instruction) {
 		if isInvoke(in, "setTimestamp") {
 			stamp = in
 		}
